@@ -5,6 +5,7 @@ import (
 	"fmt"
 	"os"
 	"path/filepath"
+	"time"
 )
 
 // replay re-executes a saved case: harness replay <dir>
@@ -28,8 +29,7 @@ func replay(dir string) int {
 	}
 	f := replayers[meta.Op]
 	if f == nil {
-		fmt.Println("no replayer for op", meta.Op)
-		return 2
+		f = func(prop string, c *Case, args json.RawMessage) int { return replayGeneric(prop, meta.Op, c, args) }
 	}
 	files := map[string]string{}
 	for id, rel := range meta.Files {
@@ -40,3 +40,80 @@ func replay(dir string) int {
 }
 
 var replayers = map[string]func(prop string, c *Case, args json.RawMessage) int{}
+
+var traceModuleOf = map[string]string{"flatten": "Trace_Flatten", "analyze": "Trace_Analyzer", "queries": "Trace_Queries", "classify": "Trace_Classify",
+	"fixer": "Trace_Fixer", "mixin": "Trace_Mixin", "readers": "Trace_Readers"}
+
+// splitAfter turns a record that carries an "after" record (the same object asked again after Flatten) into two records.
+func splitAfter(raw json.RawMessage) []json.RawMessage {
+	var m map[string]json.RawMessage
+	if json.Unmarshal(raw, &m) != nil {
+		return []json.RawMessage{raw}
+	}
+	aft, has := m["after"]
+	if !has || string(aft) == "null" {
+		return []json.RawMessage{raw}
+	}
+	delete(m, "after")
+	b, err := json.Marshal(m)
+	if err != nil {
+		return []json.RawMessage{raw}
+	}
+	return []json.RawMessage{b, aft}
+}
+
+// replayGeneric re-executes the saved operation on the saved files in a worker and lets TLC judge the new record with the trace
+// specification of the operation: exit 1 when the property is violated again, 0 when it holds on the current tree.
+func replayGeneric(prop, op string, c *Case, args json.RawMessage) int {
+	pool := &Pool{Exe: selfExe(), N: 1, Timeout: 60 * time.Second}
+	r := pool.RunOne(&Req{ID: c.Tid, Op: op, Dir: c.Dir, Files: c.Files, Names: c.Names, Args: args}, 60*time.Second)
+	if r.Crash != "" {
+		fmt.Printf("REPRODUCED property=%s: the operation crashed (%s)\n%s\n", prop, r.Crash, firstLines(r.Detail, 12))
+		return 1
+	}
+	if r.Err != "" || r.Rec == nil {
+		fmt.Println("the operation could not be executed:", r.Err)
+		return 2
+	}
+	mod := traceModuleOf[op]
+	if mod == "" {
+		fmt.Println("executed; no trace specification is attached to operation", op)
+		return 0
+	}
+	scratch, err := scratchDir("replay")
+	if err != nil {
+		fmt.Println(err)
+		return 2
+	}
+	defer os.RemoveAll(scratch)
+	tl, err := RunTraceValidation(scratch, mod, splitAfter(r.Rec), 10*time.Minute)
+	if err != nil || tl == nil || !tl.OK {
+		fmt.Println("TLC did not complete:", err)
+		return 2
+	}
+	bad, judged := false, false
+	for tid, v := range tl.Verdicts {
+		if ok, has := v[prop]; has {
+			judged = true
+			fmt.Printf("verdict %s %s = %v\n", tid, prop, ok)
+			if !ok {
+				bad = true
+			}
+		}
+	}
+	for _, d := range tl.Diags {
+		if _, p, _, _ := diagShape(d); p == prop {
+			fmt.Println(d[:min(len(d), 600)])
+		}
+	}
+	switch {
+	case bad:
+		fmt.Printf("REPRODUCED property=%s on the current tree\n", prop)
+		return 1
+	case !judged:
+		fmt.Printf("executed; a single run carries no verdict for %s (the property compares several runs or needs the campaign context)\n", prop)
+	default:
+		fmt.Printf("property %s holds for this case on the current tree\n", prop)
+	}
+	return 0
+}
